@@ -327,6 +327,11 @@ func (o *Opts) Matrix() *Node {
 				d += "_"
 			}
 			dims = append(dims, d)
+			if t.Draw(12, "matrix:nulldim") == 11 {
+				// a dimension named without values
+				setup.Set(d, Null())
+				continue
+			}
 			setup.Set(d, vals("matrix.value", 0))
 		}
 		if t.Draw(6, "matrix:mixed-anon") == 5 {
@@ -408,6 +413,12 @@ func (o *Opts) Cache() *Node {
 		}
 		return s
 	case 2:
+		switch t.Draw(4, "cache:scalar") {
+		case 2:
+			return Bool(true) // caching on, nothing named
+		case 3:
+			return &Node{Kind: KSeq, Seq: []*Node{}} // an empty list of paths
+		}
 		return Bool(false)
 	}
 	m := Map()
